@@ -110,6 +110,15 @@ package geom
 //@   ensures 0 <= p.pos && p.pos <= len(p.twkb) && same(p.twkb, old(p.twkb))
 //@   ensures result == nil && (p.kind == 1 || p.kind == 2 || p.kind == 3) ==> !p.hasIDs
 //@   ensures result == nil && p.hasSize ==> 0 <= p.size && p.size <= len(p.twkb)
+//@   ensures result == nil ==> old(p.pos) + 2 <= len(p.twkb) && p.kind == old(p.twkb[p.pos]) % 16
+//@   ensures result == nil ==> (p.hasBBox <==> old(p.twkb[p.pos + 1]) % 2 == 1) && (p.hasSize <==> (old(p.twkb[p.pos + 1]) / 2) % 2 == 1) && (p.hasIDs <==> (old(p.twkb[p.pos + 1]) / 4) % 2 == 1) && (p.hasExt <==> (old(p.twkb[p.pos + 1]) / 8) % 2 == 1) && (p.isEmpty <==> (old(p.twkb[p.pos + 1]) / 16) % 2 == 1)
+//@   ensures result == nil && p.hasExt ==> old(p.pos) + 3 <= len(p.twkb) && (p.hasZ <==> old(p.twkb[p.pos + 2]) % 2 == 1) && (p.hasM <==> (old(p.twkb[p.pos + 2]) / 2) % 2 == 1)
+//@   ensures result == nil && p.hasExt && p.hasZ ==> p.precZ == (old(p.twkb[p.pos + 2]) / 4) % 8
+//@   ensures result == nil && p.hasExt && p.hasM ==> p.precM == (old(p.twkb[p.pos + 2]) / 32) % 8
+//@   ensures result == nil && !p.hasExt ==> !p.hasZ && !p.hasM
+//@   ensures result == nil && (old(p.twkb[p.pos]) / 16) % 2 == 0 ==> p.precXY == (old(p.twkb[p.pos]) / 16) / 2
+//@   ensures result == nil && (old(p.twkb[p.pos]) / 16) % 2 == 1 ==> p.precXY == 0 - ((old(p.twkb[p.pos]) / 16) + 1) / 2
+//@   ensures old(p.pos) + 2 <= len(p.twkb) && old(p.twkb[p.pos + 1]) % 4 == 0 && ((old(p.twkb[p.pos + 1]) / 8) % 2 == 1 ==> old(p.pos) + 3 <= len(p.twkb)) && !((old(p.twkb[p.pos]) % 16 == 1 || old(p.twkb[p.pos]) % 16 == 2 || old(p.twkb[p.pos]) % 16 == 3) && (old(p.twkb[p.pos + 1]) / 4) % 2 == 1) ==> result == nil
 
 // ---- geometry level: total for every input; allocation bounded by the input ----
 //@ pred Tk(p) = TwkbInv(p) && (onlychanged(p, pos, refpoint) && p.pos >= old(p.pos))
